@@ -12,9 +12,12 @@ type GenEnv struct {
 	// NoEnterprise restricts field specifiers to IANA elements (for checks whose code under test runs in
 	// another process, where the harness's enterprise elements are not installed).
 	NoEnterprise bool
-	iana         [][]Elem // by type
-	ent          [][]Elem
-	ianaAll      []Elem
+	// OffSpecLengths: fixed-size types are sometimes declared LONGER than their natural size (outside RFC 7011,
+	// but accepted by the decoders): only for checks whose oracle does not interpret the octets itself
+	OffSpecLengths bool
+	iana           [][]Elem // by type
+	ent            [][]Elem
+	ianaAll        []Elem
 }
 
 func NewGenEnv(proto string) *GenEnv { return NewGenEnvFrom(proto, Elements()) }
@@ -65,6 +68,8 @@ func (e *GenEnv) GenField(t *rapid.T) Field {
 	f := Field{PEN: el.PEN, ID: el.ID, Type: el.Type}
 	nat := NaturalSize(el.Type)
 	switch {
+	case nat > 0 && e.OffSpecLengths && rapid.IntRange(0, 7).Draw(t, "offspec") == 0:
+		f.Len = uint16(nat + rapid.SampledFrom([]int{1, 1, 2, 3, 4, 8, 12, 16}).Draw(t, "offspecextra"))
 	case nat > 0:
 		if rapid.IntRange(0, 9).Draw(t, "reduced") == 0 {
 			f.Len = uint16(rapid.IntRange(0, nat-1).Draw(t, "rlen"))
